@@ -260,6 +260,7 @@ func TestC09(t *testing.T) {
 		first: []w.Event{evb("setTemplate", edsKey, "B"), ev("R_eds", edsKey), ev("R_eds", edsKey)}})
 	for _, o := range []scOpt{s1, s2} {
 		o.mons = []func(*w.MonCtx){monC09}
+		setupRun = run
 		sc := mkScenario(t, o)
 		start := sc.Init[0].Now
 		sc.Prune = func(s *w.State) bool { return s.Now > start+horizon }
